@@ -1,5 +1,6 @@
 """C17 - no request is evaluated before the client's identity is established."""
 import multiprocessing
+import os
 
 from .. import common, tlc, absmap as A, engdrv as D, engcheck as E, sessdrv as S, sesstrace as ST
 
@@ -169,6 +170,130 @@ def sequences(run, quick):
     run.extra["requests_in_sequences_on_real_session"] = nrun
 
 
+# ---------------------------------------------------------------- the whole system
+
+CFG_KIND = {"disabled": "disabled", "unsupported": "unsupported"}
+
+
+def _system_group(args):
+    """One configured KmipServer (configuration file -> TLS -> sessions -> engine) and the rows that share its configuration."""
+    import sqlite3
+    import shutil
+    from .. import sysdrv
+    gid, tlsauth, kinds, rows, pki, certs = args
+    common.scratch()
+    sysdrv.install_wrap_socket()
+    from kmip.core import enums
+    from kmip.pie import exceptions as pexc
+    root = os.path.join(common.scratch(), "sys%d" % gid)
+    plugins = []
+    for k, ck in enumerate(kinds, 1):
+        if ck == "unsupported":
+            plugins.append(("auth:ldap%d" % k, True, "slugs%d" % k))
+        else:
+            plugins.append(("auth:slugs%d" % k, ck == "enabled", "slugs%d" % k))
+    sysm = sysdrv.System(root, tls_client_auth=tlsauth, plugins=plugins, issue=lambda *a: None)
+    sysm.pki = pki
+    # rewrite the configuration with the shared PKI paths
+    txt = open(sysm.conf).read().replace(os.path.join(os.path.dirname(root), "pki"), pki)
+    open(sysm.conf, "w").write(txt)
+    out = []
+    try:
+        sysm.start()
+        for row in rows:
+            cfg = row["cfg"]
+            sysm.set_slugs({"slugs%d" % k: kind for k, kind in enumerate(cfg["plugins"], 1) if kind not in ("disabled", "unsupported")})
+            cert, key = certs.get("%s/%s" % (cfg["cert"], cfg["eku"]), (None, None))
+            before = _owners(sysm.db)
+            obs = {"outcome": "", "detail": ""}
+            try:
+                cl = sysm.client(cert, key)
+                cl.open()
+                try:
+                    uid = cl.create(enums.CryptographicAlgorithm.AES, 128)
+                    obs = {"outcome": "served", "detail": str(uid)}
+                finally:
+                    cl.close()
+            except pexc.KmipOperationFailure as e:
+                obs = {"outcome": "refused", "detail": getattr(e.reason, "name", str(e.reason))}
+            except Exception as e:
+                obs = {"outcome": "transport", "detail": "%s: %s" % (type(e).__name__, str(e)[:80])}
+            after = _owners(sysm.db)
+            new = [o for u, o in after.items() if u not in before]
+            out.append({"n": row["n"], "cfg": cfg, "obs": obs, "new_owners": new})
+    finally:
+        sysm.stop()
+        shutil.rmtree(root, ignore_errors=True)
+    return out
+
+
+def _owners(db):
+    import sqlite3
+    for _ in range(20):
+        try:
+            con = sqlite3.connect("file:%s?mode=ro" % db, uri=True, timeout=10)
+            try:
+                return dict(con.execute("select uid, owner from managed_objects").fetchall())
+            finally:
+                con.close()
+        except sqlite3.OperationalError:
+            import time
+            time.sleep(0.1)
+    return {}
+
+
+def system_rows(run, rows, quick):
+    """The same rows end to end: the configuration FILE decides what the sessions are created with (enable_tls_client_auth,
+    the [auth:*] blocks in file order), a real TLS handshake delivers the certificate, a real client sends the request."""
+    import os
+    from .. import sysdrv
+    rows = [r for r in rows if r["cfg"]["req"] == "valid"]
+    if quick:
+        rows = [r for i, r in enumerate(rows) if len(r["cfg"]["plugins"]) <= 1 or i % 9 == 0]
+    pki = os.path.join(common.scratch(), "pki")
+    issue = sysdrv.make_pki(pki)
+    certs = {}
+    for cert, cns in (("cn0", []), ("cn1", ["alice"]), ("cn2", ["alice", "alice2"])):
+        for eku in ("absent", "other", "lookalike", "any", "client"):
+            certs["%s/%s" % (cert, eku)] = issue("%s_%s" % (cert, eku), cns, eku)
+    groups = {}
+    for r in rows:
+        kinds = tuple(CFG_KIND.get(k, "enabled") for k in r["cfg"]["plugins"])
+        groups.setdefault((r["cfg"]["tlsauth"], kinds), []).append(r)
+    tasks = [(i, tls, kinds, rs, pki, certs) for i, ((tls, kinds), rs) in enumerate(sorted(groups.items(), key=lambda x: repr(x[0])))]
+    import concurrent.futures
+    # (workers that start server processes of their own: a multiprocessing.Pool's daemonic workers may not have children)
+    with concurrent.futures.ProcessPoolExecutor(max_workers=min(common.NCPU, 8)) as pool:
+        outs = list(pool.map(_system_group, tasks))
+    by = {r["n"]: r for r in rows}
+    n = 0
+    for out in outs:
+        for o in out:
+            n += 1
+            row = by[o["n"]]
+            cfg, est = o["cfg"], row["established"]
+            sig = {"level": "system", "cert": cfg["cert"], "eku": cfg["eku"], "tlsauth": cfg["tlsauth"], "plugins": cfg["plugins"]}
+            bad = []
+            served = o["obs"]["outcome"] == "served"
+            if served or o["new_owners"]:
+                if not est:
+                    bad.append("C17_entry")
+                elif any(w != "alice" for w in o["new_owners"]):
+                    bad.append("C17_identity")
+            if not est and cfg["cert"] != "absent" and o["obs"]["outcome"] == "refused" and o["obs"]["detail"] != "AUTHENTICATION_NOT_SUCCESSFUL":
+                bad.append("C17_reason")
+            # (OpenSSL itself refuses a client certificate whose extended key usage excludes client authentication, whatever
+            # enable_tls_client_auth says: such rows end in the handshake)
+            tls_purpose = o["obs"]["outcome"] == "transport" and cfg["eku"] in ("other", "lookalike", "any")
+            if est and not served and not tls_purpose:
+                run.note_drift({"what": ["established-but-not-served (system)"], "cfg": sig, "observed": o["obs"]})
+            for c in bad:
+                run.violation(c, sig, {"configuration": cfg, "observed": o, "prescribed": {"established": est}})
+            run.case(("system", common.jdump(sig)))
+    run.traces += n
+    run.extra["rows_executed_on_the_whole_system"] = {"rows": n, "servers_started": len(tasks)}
+
+
 def check(run, tier):
     quick = tier == "quick"
     maxp = 2 if quick else 3
@@ -239,5 +364,6 @@ def check(run, tier):
                 run.sample({"configuration": cfg, "observed": {k: o[k] for k in ("called", "user", "groups", "reason", "changed")}})
     run.traces += nrun
     run.extra["rows_executed_on_real_session"] = nrun
+    system_rows(run, rows, quick)
     sequences(run, quick)
     run.assumptions.append("SLUGS outcomes modelled: ok, user 404, groups 404, unreachable, groups body not JSON (other HTTP statuses are outside the menu)")
